@@ -516,6 +516,31 @@ func (f *folder) step(in ssa.Instruction) *foldStop {
 		return nil // handled by the driver (needs the predecessor)
 	case *ssa.FieldAddr, *ssa.Field:
 		return nil
+	case *ssa.Slice:
+		base, ok := f.eval(in.X)
+		if !ok || base.kind != 's' {
+			return &foldStop{kind: "impure", instr: in}
+		}
+		lo, hi := int64(0), int64(len(base.s))
+		if in.Low != nil {
+			v, ok := f.eval(in.Low)
+			if !ok || v.kind != 'i' {
+				return &foldStop{kind: "unknown", instr: in, what: "slice bound not foldable"}
+			}
+			lo = v.i
+		}
+		if in.High != nil {
+			v, ok := f.eval(in.High)
+			if !ok || v.kind != 'i' {
+				return &foldStop{kind: "unknown", instr: in, what: "slice bound not foldable"}
+			}
+			hi = v.i
+		}
+		if lo < 0 || hi > int64(len(base.s)) || lo > hi {
+			return &foldStop{kind: "panic", instr: in, what: fmt.Sprintf("slice bounds out of range [%d:%d] with length %d", lo, hi, len(base.s))}
+		}
+		f.env[in] = fval{kind: 's', s: base.s[lo:hi]}
+		return nil
 	}
 	return &foldStop{kind: "impure", instr: in}
 }
